@@ -202,11 +202,44 @@ def run(ctx):
     ctx.traces += len(jobs)
 
     # ---- T: serial numbers never influence predictions ---------------------------------------
-    try:
-        from .. import relations
-        relations.serial_rewrite_check(ctx)
-    except ImportError:
-        ctx.note("serial-column relation not available yet")
+    from .. import corpus, relations, runner
+    rels = []
+    for name, text in (("3SGB-subset", corpus.test_pdb_text("3SGB-subset")), ("frag-1HPX-A20+12", corpus.fragment("1HPX", "A", 20, 12))):
+        base = runner.run(text, ["-q"])
+        ctx.count()
+        if base.exc is not None:
+            continue
+        lo, hi = py_range(5)
+        for mode in ("upper", "lower", "mixed", "negative"):
+            out = []
+            k = 0
+            for ln in text.splitlines():
+                if corpus.is_atom(ln):
+                    k += 1
+                    if mode == "upper":
+                        n = 100000 + rng.randrange(0, 26 * 36 ** 4)
+                    elif mode == "lower":
+                        n = 100000 + 26 * 36 ** 4 + rng.randrange(0, 26 * 36 ** 4)
+                    elif mode == "negative":
+                        n = -rng.randrange(1, 9999)
+                    else:
+                        n = rng.randrange(lo, hi)
+                    ln = ln[:6] + py_encode(n, 5).rjust(5) + ln[11:]
+                out.append(ln)
+            etext = "\n".join(out) + "\n"
+            rb = runner.run(etext, ["-q"])
+            ctx.count()
+            if rb.exc is not None:
+                ctx.violation(f"serial:{mode}:exception", f"{name} with {mode} hybrid-36 serials raises {rb.exc!r}", {"field": "", "pdb": etext})
+                continue
+            ctx.nontriv((name, mode))
+            rels.append(relations.relate("SameAll", base, text, rb, etext, textcmp=True, meta={"input": name, "mode": mode, "pdb": etext}))
+    rv = relations.validate(ctx, rels, ["SameConfs", "SameAll", "TextSame"], "serial columns rewritten with hybrid-36 fields")
+    for inv, lst in sorted(rv.items()):
+        for rel in lst:
+            m = rel["meta"]
+            ctx.violation(f"serial:{m['mode']}:{inv}", f"{m['input']}: rewriting serials ({m['mode']}) changes results: "
+                          f"{relations.diff_summary(rel)}", {"field": "", "pdb": m["pdb"]})
 
 
 def replay(ctx, path):
